@@ -34,7 +34,17 @@ pub struct MTrack {
     pub pred_hist: Vec<BoxF>,
     pub feat_hist: Vec<Option<Vec<f32>>>,
     /// stored appearance features as of the last physical snapshot (None = unknown)
-    pub gallery: Option<Vec<Vec<f32>>>,
+    pub gallery: Option<Vec<(Vec<f32>, f32)>>,
+    /// updates since the last physical snapshot: (feature (padded), quality, must be collected)
+    pub pending: Vec<(Option<Vec<f32>>, f32, bool)>,
+}
+
+pub fn pad8(f: &[f32]) -> Vec<f32> {
+    let mut v = f.to_vec();
+    while v.len() % 8 != 0 {
+        v.push(0.0);
+    }
+    v
 }
 
 #[derive(Default, Clone, Debug)]
@@ -55,6 +65,19 @@ pub struct WalkStats {
     pub epochs: u64,
     pub first_ambiguous_op: Option<usize>,
     pub visual_records: u64,
+    pub near_gate_open: u64,
+    pub near_gate_closed: u64,
+    pub multi_choice_steps: u64,
+    pub rv_asserted: u64,
+    pub rv_ambiguous: u64,
+    pub rv_visual_attach: u64,
+    pub rv_contests: u64,
+    pub rv_losers: u64,
+    pub rv_fallback_rows: u64,
+    pub rv_track_too_short: u64,
+    pub rv_unusable_quality: u64,
+    pub rv_unusable_area: u64,
+    pub rv_votes_below_min: u64,
 }
 
 pub struct Walk {
@@ -167,6 +190,7 @@ impl<'a> Model<'a> {
             self.refsort_check(op, opi, scene, e, dets, recs);
         } else {
             self.visual_tie_filter(opi, scene, e, dets);
+            self.refvisual_check(op, opi, scene, e, dets, recs);
         }
         // lifecycle classification + model update
         for (i, (d, r)) in dets.iter().zip(recs.iter()).enumerate() {
@@ -202,6 +226,11 @@ impl<'a> Model<'a> {
                     t.obs_hist.push(d.b.clone());
                     t.pred_hist.push(r.pred.clone());
                     t.feat_hist.push(d.feature.clone());
+                    let collectable = match &self.cfg.visual {
+                        Some(v) => d.feature.is_some() && d.b.area() >= v.min_area as f64 && d.quality.unwrap_or(1.0) >= v.q_collect,
+                        None => false,
+                    };
+                    t.pending.push((d.feature.as_ref().map(|f| pad8(f)), d.quality.unwrap_or(1.0), collectable));
                     if let Some(k) = t.kf.as_mut() {
                         k.predict();
                         k.update(&d.b);
@@ -235,7 +264,8 @@ impl<'a> Model<'a> {
                             obs_hist: vec![d.b.clone()],
                             pred_hist: vec![r.pred.clone()],
                             feat_hist: vec![d.feature.clone()],
-                            gallery: None,
+                            gallery: Some(vec![]),
+                            pending: vec![(d.feature.as_ref().map(|f| pad8(f)), d.quality.unwrap_or(1.0), d.feature.is_some())],
                         },
                     );
                 }
@@ -307,7 +337,7 @@ impl<'a> Model<'a> {
                             ambiguous = true;
                             continue;
                         };
-                        let hit = g.iter().any(|s| {
+                        let hit = g.iter().map(|x| &x.0).any(|s| {
                             let (mut dot, mut na, mut nb, mut sq) = (0.0f64, 0.0f64, 0.0f64, 0.0f64);
                             for i in 0..f.len().max(s.len()) {
                                 let a = *f.get(i).unwrap_or(&0.0) as f64;
@@ -345,6 +375,350 @@ impl<'a> Model<'a> {
         }
     }
 
+    fn check_histories(&mut self, op: &str, opi: usize, ti: &TInfo, what: &str) {
+        let Some(mt) = self.tracks.get(&ti.id).cloned() else { return };
+        let h = self.cfg.history;
+        let tail = |n: usize| n.saturating_sub(h);
+        let eo: Vec<&BoxF> = mt.obs_hist[tail(mt.obs_hist.len())..].iter().collect();
+        let ep: Vec<&BoxF> = mt.pred_hist[tail(mt.pred_hist.len())..].iter().collect();
+        let same = |a: &Vec<BoxF>, e: &Vec<&BoxF>| a.len() == e.len() && a.iter().zip(e.iter()).all(|(x, y)| box_eq(x, y) && x.conf == y.conf);
+        if !same(&ti.obs_hist, &eo) {
+            self.v("C13", "history", op, if ti.obs_hist.len() != eo.len() { "observed-length" } else { "observed-content" },
+                format!("op {opi}: {what} track {} keeps observed boxes {:?}; the last min(length {}, history {}) arrivals are {:?}", ti.id, ti.obs_hist, mt.length, h, eo));
+        }
+        if !same(&ti.pred_hist, &ep) {
+            self.v("C13", "history", op, if ti.pred_hist.len() != ep.len() { "predicted-length" } else { "predicted-content" },
+                format!("op {opi}: {what} track {} keeps predicted boxes {:?}; expected {:?}", ti.id, ti.pred_hist, ep));
+        }
+        if let Some(fh) = &ti.feat_hist {
+            let ef: Vec<Option<Vec<f32>>> = mt.feat_hist[tail(mt.feat_hist.len())..].iter().map(|f| f.as_ref().map(|x| pad8(x))).collect();
+            if fh != &ef {
+                self.v("C13", "history", op, if fh.len() != ef.len() { "feature-length" } else { "feature-content" },
+                    format!("op {opi}: {what} track {} keeps feature history {:?}; expected {:?}", ti.id, fh, ef));
+            }
+        }
+    }
+
+    fn check_gallery(&mut self, op: &str, opi: usize, ti: &TInfo) {
+        let Some(v) = self.cfg.visual.clone() else { return };
+        let Some(g) = &ti.gallery else { return };
+        let after: Vec<(Vec<f32>, f32)> = g.iter().filter_map(|x| x.feature.clone().map(|f| (f, x.quality))).collect();
+        let mt = self.tracks.get(&ti.id).cloned().unwrap();
+        if after.len() > v.max_obs {
+            self.v("C13", "gallery-size", op, "exceeds-max-observations",
+                format!("op {opi}: track {} stores {} features, visual_max_observations = {}", ti.id, after.len(), v.max_obs));
+        }
+        if ti.collected != Some(after.len()) {
+            self.v("C13", "collected-count", op, "count!=stored",
+                format!("op {opi}: track {} reports {:?} collected features, {} are stored", ti.id, ti.collected, after.len()));
+        }
+        if let Some(before) = &mt.gallery {
+            if mt.pending.is_empty() {
+                let mut a = after.clone();
+                let mut b = before.clone();
+                a.sort_by(|x, y| x.partial_cmp(y).unwrap());
+                b.sort_by(|x, y| x.partial_cmp(y).unwrap());
+                if a != b {
+                    self.v("C13", "gallery", op, "changed-without-update",
+                        format!("op {opi}: gallery of track {} changed although the track was not updated", ti.id));
+                }
+            } else if mt.pending.len() == 1 {
+                let (feat, q, must) = mt.pending[0].clone();
+                let mut rest = after.clone();
+                let has_new = match &feat {
+                    Some(f) => {
+                        if let Some(i) = rest.iter().position(|(x, xq)| x == f && *xq == q) {
+                            rest.remove(i);
+                            true
+                        } else {
+                            false
+                        }
+                    }
+                    None => false,
+                };
+                let is_new_track = mt.length == 1;
+                if feat.is_some() && must && !has_new {
+                    self.v("C13", "gallery", op, "feature-not-collected",
+                        format!("op {opi}: track {}: the detection met the collect thresholds but its feature is not stored", ti.id));
+                }
+                if feat.is_some() && !must && has_new && !is_new_track {
+                    self.v("C13", "gallery", op, "collected-below-threshold",
+                        format!("op {opi}: track {}: feature with quality {q} stored although the collect thresholds are not met", ti.id));
+                }
+                // the rest must come from the old gallery, at most one removed, the lowest-quality one
+                let mut old = before.clone();
+                let mut ok = true;
+                for x in &rest {
+                    if let Some(i) = old.iter().position(|y| y == x) {
+                        old.remove(i);
+                    } else {
+                        ok = false;
+                    }
+                }
+                if !ok {
+                    self.v("C13", "gallery", op, "unknown-feature-stored",
+                        format!("op {opi}: track {} stores a feature that is neither old nor the new detection's", ti.id));
+                } else if old.len() > 1 {
+                    self.v("C13", "gallery", op, "more-than-one-evicted",
+                        format!("op {opi}: track {}: {} stored features disappeared in one update", ti.id, old.len()));
+                } else if old.len() == 1 {
+                    let evq = old[0].1;
+                    if before.len() < v.max_obs {
+                        self.v("C13", "gallery", op, "evicted-below-capacity",
+                            format!("op {opi}: track {}: a feature was evicted although only {} of {} slots were used", ti.id, before.len(), v.max_obs));
+                    } else if rest.iter().any(|(_, rq)| *rq < evq) {
+                        self.v("C13", "gallery", op, "evicted-not-lowest-quality",
+                            format!("op {opi}: track {}: evicted a feature of quality {evq} while one of lower quality stays ({:?})", ti.id, rest.iter().map(|x| x.1).collect::<Vec<_>>()));
+                    }
+                }
+            }
+        }
+        let t = self.tracks.get_mut(&ti.id).unwrap();
+        t.gallery = Some(after);
+        t.pending.clear();
+    }
+
+    /// RefVisual (C12): re-derive appearance claims, contests and the positional
+    /// remainder from the observable galleries and assert the statement, not the
+    /// implementation's incidental choices.
+    fn refvisual_check(&mut self, op: &str, opi: usize, scene: u64, e: usize, dets: &[Det], recs: &[Rec]) {
+        let Some(v) = self.cfg.visual.clone() else { return };
+        let cand: Vec<MTrack> = self
+            .tracks
+            .values()
+            .filter(|t| t.scene == scene && t.place == Place::Live && e - t.last_epoch <= self.cfg.max_idle)
+            .cloned()
+            .collect();
+        let amb = |s: &mut WalkStats| s.rv_ambiguous += 1;
+        if dets.len() > 7 || cand.len() > 9 || cand.iter().any(|t| t.gallery.is_none() || !t.pending.is_empty()) {
+            amb(&mut self.stats);
+            return;
+        }
+        if matches!(self.cfg.metric, PosMetric::Maha) && cand.iter().any(|t| t.kf.is_none()) {
+            amb(&mut self.stats);
+            return;
+        }
+        let rts: Vec<RTrack> = cand
+            .iter()
+            .map(|t| RTrack { id: t.id, gap: e - t.last_epoch, pred: t.last_pred.clone(), kf: t.kf.clone() })
+            .collect();
+        let boxes: Vec<BoxF> = dets.iter().map(|d| d.b.clone()).collect();
+        let m = build_matrix(self.cfg, &boxes, &rts, true);
+        let mut near = m.near_threshold;
+        let (n, k) = (dets.len(), cand.len());
+        // usability of each detection's feature
+        let mut usable = vec![false; n];
+        for (i, d) in dets.iter().enumerate() {
+            let area = d.b.area();
+            if (area - v.min_area as f64).abs() < 1e-3 * (1.0 + v.min_area as f64) {
+                near = true;
+            }
+            let q = d.quality.unwrap_or(1.0);
+            if (q - v.q_use).abs() < 1e-6 {
+                near = true;
+            }
+            if d.feature.is_some() {
+                if area < v.min_area as f64 {
+                    self.stats.rv_unusable_area += 1;
+                } else if q < v.q_use {
+                    self.stats.rv_unusable_quality += 1;
+                }
+            }
+            usable[i] = d.feature.is_some() && area >= v.min_area as f64 && q >= v.q_use;
+        }
+        let fdist = |a: &[f32], b: &[f32]| -> f64 {
+            let (mut dot, mut na, mut nb, mut sq) = (0.0f64, 0.0f64, 0.0f64, 0.0f64);
+            for i in 0..a.len().max(b.len()) {
+                let x = *a.get(i).unwrap_or(&0.0) as f64;
+                let y = *b.get(i).unwrap_or(&0.0) as f64;
+                dot += x * y;
+                na += x * x;
+                nb += y * y;
+                sq += (x - y) * (x - y);
+            }
+            if v.cosine {
+                dot / (na.sqrt() * nb.sqrt())
+            } else {
+                sq.sqrt()
+            }
+        };
+        // within[i][j] = weights-to-be (distance values) of stored features within threshold
+        let mut within: Vec<Vec<Vec<f64>>> = vec![vec![vec![]; k]; n];
+        let mut maxd = -1.0f64;
+        let thr = v.threshold as f64;
+        for i in 0..n {
+            if !usable[i] {
+                continue;
+            }
+            let f = pad8(dets[i].feature.as_ref().unwrap());
+            for j in 0..k {
+                if m.pairs[i][j] == Pair::Forbidden {
+                    continue;
+                }
+                let g = cand[j].gallery.as_ref().unwrap();
+                if g.len() < v.min_track_len {
+                    if !g.is_empty() {
+                        self.stats.rv_track_too_short += 1;
+                    }
+                    continue;
+                }
+                for (gf, _) in g {
+                    let d = fdist(&f, gf);
+                    if (d - thr).abs() < 1e-4 * (1.0 + thr.abs()) {
+                        near = true;
+                    }
+                    let ok = if v.cosine { d >= thr } else { d <= thr };
+                    if ok {
+                        let w = if v.cosine { 1.0 - d } else { d };
+                        within[i][j].push(w);
+                        if w > maxd {
+                            maxd = w;
+                        }
+                    }
+                }
+            }
+        }
+        if near {
+            amb(&mut self.stats);
+            return;
+        }
+        let mut claim = vec![vec![None::<f64>; k]; n];
+        for i in 0..n {
+            for j in 0..k {
+                let votes = within[i][j].len();
+                if votes > 0 && votes < v.min_votes {
+                    self.stats.rv_votes_below_min += 1;
+                }
+                if votes >= v.min_votes && votes > 0 {
+                    claim[i][j] = Some(within[i][j].iter().map(|d| maxd - d).sum());
+                }
+            }
+        }
+        let wm = |a: f64, b: f64| 1e-4 * (1.0 + a.abs().max(b.abs()));
+        // ties between any two claims that matter to one another make the step ambiguous
+        for j in 0..k {
+            let cl: Vec<f64> = (0..n).filter_map(|i| claim[i][j]).collect();
+            for a in 0..cl.len() {
+                for b in (a + 1)..cl.len() {
+                    if (cl[a] - cl[b]).abs() < wm(cl[a], cl[b]) {
+                        amb(&mut self.stats);
+                        return;
+                    }
+                }
+            }
+        }
+        for i in 0..n {
+            let cl: Vec<f64> = (0..k).filter_map(|j| claim[i][j]).collect();
+            for a in 0..cl.len() {
+                for b in (a + 1)..cl.len() {
+                    if (cl[a] - cl[b]).abs() < wm(cl[a], cl[b]) {
+                        amb(&mut self.stats);
+                        return;
+                    }
+                }
+            }
+        }
+        self.stats.rv_asserted += 1;
+        let on: Vec<Option<usize>> = recs.iter().map(|r| cand.iter().position(|t| t.id == r.id)).collect();
+        for j in 0..k {
+            if (0..n).filter(|i| claim[*i][j].is_some()).count() > 1 {
+                self.stats.rv_contests += 1;
+            }
+        }
+        for i in 0..n {
+            let r = &recs[i];
+            let heavier = |j: usize, w: f64| (0..n).any(|i2| i2 != i && claim[i2][j].map(|w2| w2 > w).unwrap_or(false));
+            if r.visual {
+                self.stats.rv_visual_attach += 1;
+                match on[i] {
+                    None => {
+                        self.v("C12", "visual-unsound", op, "visual-flag-without-existing-track",
+                            format!("op {opi} scene {scene}: detection {i} reports visual voting but track {} is not a live candidate track", r.id));
+                        return;
+                    }
+                    Some(j) => match claim[i][j] {
+                        None => {
+                            let why = if !usable[i] {
+                                "feature-not-usable"
+                            } else if cand[j].gallery.as_ref().unwrap().len() < v.min_track_len {
+                                "track-too-short"
+                            } else {
+                                "not-enough-votes"
+                            };
+                            self.v("C12", "visual-unsound", op, why,
+                                format!("op {opi} scene {scene}: detection {i} attached to track {} by appearance without a valid claim ({why}; votes {} of {} needed, gallery {} of {} needed)",
+                                    r.id, within[i][j].len(), v.min_votes, cand[j].gallery.as_ref().unwrap().len(), v.min_track_len));
+                            return;
+                        }
+                        Some(w) => {
+                            if heavier(j, w) {
+                                self.v("C12", "contest", op, "lighter-claimant-won",
+                                    format!("op {opi} scene {scene}: detection {i} (weight {w:.5}) got track {} although a heavier claimant exists: {:?}",
+                                        r.id, (0..n).map(|i2| claim[i2][j]).collect::<Vec<_>>()));
+                                return;
+                            }
+                        }
+                    },
+                }
+            } else if let Some(j) = on[i] {
+                if let Some(w) = claim[i][j] {
+                    if heavier(j, w) {
+                        self.v("C12", "contest", op, "loser-attached-to-contested-track",
+                            format!("op {opi} scene {scene}: detection {i} lost the appearance contest for track {} but is attached to it", r.id));
+                        return;
+                    }
+                }
+            }
+            // completeness
+            let mine: Vec<(usize, f64)> = (0..k).filter_map(|j| claim[i][j].map(|w| (j, w))).collect();
+            if let Some((jb, wb)) = mine.iter().cloned().max_by(|a, b| a.1.partial_cmp(&b.1).unwrap()) {
+                if !heavier(jb, wb) {
+                    if on[i] != Some(jb) || !r.visual {
+                        self.v("C12", "visual-incomplete", op, if on[i] == Some(jb) { "attached-but-not-reported-visual" } else { "winning-claim-ignored" },
+                            format!("op {opi} scene {scene}: detection {i} holds the heaviest claim (weight {wb:.5}) on track {} and is its heaviest claimant, but the record is {:?}",
+                                cand[jb].id, r));
+                        return;
+                    }
+                } else {
+                    self.stats.rv_losers += 1;
+                }
+            }
+        }
+        // positional remainder: detections without any claim, tracks not taken by appearance
+        let rows: Vec<usize> = (0..n).filter(|i| claim[*i].iter().all(|c| c.is_none())).collect();
+        let taken: Vec<usize> = (0..n).filter(|i| recs[*i].visual).filter_map(|i| on[i]).collect();
+        let cols: Vec<usize> = (0..k).filter(|j| !taken.contains(j)).collect();
+        if rows.is_empty() {
+            return;
+        }
+        let sub = Matrix {
+            pairs: rows.iter().map(|i| cols.iter().map(|j| m.pairs[*i][*j].clone()).collect()).collect(),
+            near_threshold: false,
+            unmatched_weight: m.unmatched_weight,
+            weight_margin: m.weight_margin,
+            close_above: 0,
+            close_below: 0,
+        };
+        let vd = analyse(&sub, cols.len());
+        if vd.ambiguous {
+            return;
+        }
+        self.stats.rv_fallback_rows += rows.len() as u64;
+        for (ri, i) in rows.iter().enumerate() {
+            let expect = vd.best[ri].map(|c| cols[c]);
+            if recs[*i].visual {
+                // reported visual without any claim: already handled above (unsound)
+                continue;
+            }
+            if on[*i] != expect {
+                self.v("C12", "fallback", op, "positional-remainder-not-optimal",
+                    format!("op {opi} scene {scene}: detection {} has no appearance claim; positional optimum puts it on {:?}, the tracker on {:?} (tracks {:?}, taken by appearance {:?})",
+                        i, expect.map(|j| cand[j].id), on[*i].map(|j| cand[j].id), cand.iter().map(|t| t.id).collect::<Vec<_>>(), taken.iter().map(|j| cand[*j].id).collect::<Vec<_>>()));
+                return;
+            }
+        }
+    }
+
     fn refsort_check(&mut self, op: &str, opi: usize, scene: u64, e: usize, dets: &[Det], recs: &[Rec]) {
         let cand: Vec<RTrack> = self
             .tracks
@@ -378,6 +752,11 @@ impl<'a> Model<'a> {
             return;
         }
         self.stats.asserted_steps += 1;
+        self.stats.near_gate_open += m.close_above;
+        self.stats.near_gate_closed += m.close_below;
+        if m.pairs.iter().any(|r| r.iter().filter(|p| matches!(p, Pair::Open(_))).count() > 1) {
+            self.stats.multi_choice_steps += 1;
+        }
         if v.greedy_differs {
             self.stats.greedy_differs += 1;
         }
@@ -432,10 +811,13 @@ impl<'a> Model<'a> {
     }
 
     fn check_phys(&mut self, op: &str, opi: usize, p: &Phys, recs: Option<&Vec<(u64, Vec<Rec>)>>) {
-        // remember the stored galleries (pre-state of the next call)
-        for (id, ti) in p.live.iter() {
-            if let Some(t) = self.tracks.get_mut(id) {
-                t.gallery = ti.gallery.as_ref().map(|g| g.iter().filter_map(|x| x.feature.clone()).collect());
+        // C13: histories and galleries of every stored track
+        let ids: Vec<u64> = p.live.keys().chain(p.wasted.keys()).cloned().collect();
+        for id in ids {
+            let ti = p.live.get(&id).or_else(|| p.wasted.get(&id)).unwrap().clone();
+            if self.tracks.contains_key(&id) {
+                self.check_histories(op, opi, &ti, "stored");
+                self.check_gallery(op, opi, &ti);
             }
         }
         // every track in exactly one place, physical places equal the model's
@@ -584,6 +966,7 @@ pub fn walk(case: &TrackerCase, hist: &History) -> Walk {
                                     format!("op {opi}: wasted() returned track {} which is not expired (last epoch {}, scene epoch {}, max idle {})",
                                         ti.id, mt.last_epoch, m.epoch(mt.scene), cfg.max_idle));
                             }
+                            m.check_histories(kind, opi, ti, "wasted");
                             if ti.length != mt.length || ti.last_epoch != mt.last_epoch || ti.scene != mt.scene {
                                 m.v("C03", "conservation", kind, "wasted-track-fields",
                                     format!("op {opi}: wasted track {} has length {} epoch {} scene {}; model {} {} {}",
@@ -697,7 +1080,9 @@ pub fn walk(case: &TrackerCase, hist: &History) -> Walk {
             m.check_phys(kind, opi, p, recs_for_phys);
         } else {
             for t in m.tracks.values_mut() {
-                t.gallery = None;
+                if !t.pending.is_empty() {
+                    t.gallery = None;
+                }
             }
         }
     }
